@@ -374,8 +374,27 @@ func finalizeTaprootInput(p *Pset, inIndex int) error {
 
 	input := p.Inputs[inIndex]
 
+	// A 64-byte signature is SIGHASH_DEFAULT, which signs what SIGHASH_ALL
+	// signs; an input that declares no type means the same.
+	sigHashOK := func(sig []byte) bool {
+		norm := func(t txscript.SigHashType) txscript.SigHashType {
+			if t == txscript.SigHashDefault {
+				return txscript.SigHashAll
+			}
+			return t
+		}
+		sigType := txscript.SigHashDefault
+		if len(sig) == 65 {
+			sigType = txscript.SigHashType(sig[64])
+		}
+		return norm(sigType) == norm(input.SigHashType)
+	}
+
 	// keypath finalization
 	if len(input.TapKeySig) > 0 {
+		if !sigHashOK(input.TapKeySig) {
+			return ErrFinalizerInvalidSigHashFlags
+		}
 		witness := make([][]byte, 1)
 		witness[0] = input.TapKeySig
 		serializer := bufferutil.NewSerializer(nil)
@@ -397,8 +416,14 @@ func finalizeTaprootInput(p *Pset, inIndex int) error {
 		signatures := make([][]byte, 0)
 		for _, sig := range input.TapScriptSig {
 			if bytes.Equal(sig.LeafHash, leafToFinalizeHash[:]) {
+				if !sigHashOK(sig.Signature) {
+					return ErrFinalizerInvalidSigHashFlags
+				}
 				signatures = append(signatures, sig.Signature)
 			}
+		}
+		if len(signatures) == 0 {
+			return ErrFinalizerForbiddenFinalization
 		}
 
 		controlBlock, err := leafToFinalize.ControlBlock.ToBytes()
